@@ -1,0 +1,382 @@
+//! Verification oracle (only built with `--cfg kaspar030_laze_verif`).
+//!
+//! When the environment variable `LAZE_VERIF_ORACLE` is set, laze does not parse
+//! its command line but serves line-based requests on stdin, calling the real
+//! internal functions under `catch_unwind`. All string arguments are hex-encoded
+//! ("-" stands for "absent", "." for the empty string).
+
+use std::io::{BufRead, Write};
+use std::panic::{catch_unwind, AssertUnwindSafe};
+
+use crate::model::{BlockAllow, Context, ContextBag};
+use crate::nested_env::{self, Env, EnvKey, IfMissing, MergeOption};
+
+fn unhex(s: &str) -> Option<String> {
+    if s == "." {
+        return Some(String::new());
+    }
+    if s.len() % 2 != 0 {
+        return None;
+    }
+    let mut bytes = Vec::with_capacity(s.len() / 2);
+    for i in (0..s.len()).step_by(2) {
+        bytes.push(u8::from_str_radix(s.get(i..i + 2)?, 16).ok()?);
+    }
+    String::from_utf8(bytes).ok()
+}
+
+fn hex(s: &str) -> String {
+    if s.is_empty() {
+        return ".".to_string();
+    }
+    s.bytes().map(|b| format!("{:02x}", b)).collect()
+}
+
+struct Toks<'a> {
+    it: std::str::SplitWhitespace<'a>,
+}
+
+impl<'a> Toks<'a> {
+    fn raw(&mut self) -> Option<&'a str> {
+        self.it.next()
+    }
+    fn s(&mut self) -> Option<String> {
+        unhex(self.raw()?)
+    }
+    fn opt(&mut self) -> Option<Option<String>> {
+        let t = self.raw()?;
+        if t == "-" {
+            Some(None)
+        } else {
+            Some(Some(unhex(t)?))
+        }
+    }
+    fn n(&mut self) -> Option<usize> {
+        self.raw()?.parse().ok()
+    }
+    fn envkey(&mut self) -> Option<Option<EnvKey>> {
+        match self.raw()? {
+            "-" => Some(None),
+            "S" => Some(Some(EnvKey::Single(self.s()?))),
+            "L" => {
+                let n = self.n()?;
+                let mut v = im::Vector::new();
+                for _ in 0..n {
+                    v.push_back(self.s()?);
+                }
+                Some(Some(EnvKey::List(v)))
+            }
+            _ => None,
+        }
+    }
+    fn env(&mut self) -> Option<Env> {
+        let n = self.n()?;
+        let mut env = Env::new();
+        for _ in 0..n {
+            let k = self.s()?;
+            if let Some(v) = self.envkey()? {
+                env.insert(k, v);
+            }
+        }
+        Some(env)
+    }
+    fn strlist(&mut self) -> Option<Option<Vec<String>>> {
+        let t = self.raw()?;
+        if t == "-" {
+            return Some(None);
+        }
+        let n: usize = t.parse().ok()?;
+        let mut v = Vec::new();
+        for _ in 0..n {
+            v.push(self.s()?);
+        }
+        Some(Some(v))
+    }
+}
+
+fn show_envkey(k: &EnvKey) -> String {
+    match k {
+        EnvKey::Single(s) => format!("S {}", hex(s)),
+        EnvKey::List(l) => {
+            let mut r = format!("L {}", l.len());
+            for s in l.iter() {
+                r.push(' ');
+                r.push_str(&hex(s));
+            }
+            r
+        }
+    }
+}
+
+fn show_env(env: &Env, keys: &[String]) -> String {
+    let mut keys: Vec<&String> = keys.iter().collect();
+    keys.sort();
+    keys.dedup();
+    let mut r = String::new();
+    for k in keys {
+        if let Some(v) = env.get(k) {
+            r.push_str(&format!(" {} {}", hex(k), show_envkey(v)));
+        }
+    }
+    r
+}
+
+fn show_expand(res: Result<String, anyhow::Error>) -> String {
+    match res {
+        Ok(s) => format!("ok {}", hex(&s)),
+        Err(e) => {
+            let msg = format!("{e:#}");
+            if let Some(rest) = msg.strip_prefix("missing variable \"") {
+                format!("err missing {}", hex(rest.strip_suffix('"').unwrap_or(rest)))
+            } else if let Some(rest) = msg.strip_prefix("cycle involving variable \"") {
+                format!("err cycle {}", hex(rest.strip_suffix('"').unwrap_or(rest)))
+            } else if let Some(rest) = msg.strip_prefix("unclosed brace at pos ") {
+                format!("err unclosed {rest}")
+            } else if msg.starts_with("expression error") {
+                "err expr".to_string()
+            } else {
+                format!("err other {}", hex(&msg))
+            }
+        }
+    }
+}
+
+fn handle(line: &str) -> Option<String> {
+    let mut t = Toks {
+        it: line.split_whitespace(),
+    };
+    let cmd = t.raw()?;
+    match cmd {
+        "expand" | "expand_eval" => {
+            let pol = match t.raw()? {
+                "E" => IfMissing::Error,
+                "I" => IfMissing::Ignore,
+                "M" => IfMissing::Empty,
+                _ => return None,
+            };
+            let f = t.s()?;
+            let n = t.n()?;
+            let mut kv = Vec::new();
+            for _ in 0..n {
+                let k = t.s()?;
+                let v = t.s()?;
+                kv.push((k, v));
+            }
+            // later entries override earlier ones, as in a map
+            let mut map: im::HashMap<&String, String> = im::HashMap::new();
+            for (k, v) in kv.iter() {
+                map.insert(k, v.clone());
+            }
+            let res = if cmd == "expand" {
+                nested_env::expand(&f, &map, pol).map_err(anyhow::Error::from)
+            } else {
+                nested_env::expand_eval(&f, &map, pol).map_err(anyhow::Error::from)
+            };
+            Some(show_expand(res))
+        }
+        "eval" => {
+            use crate::nested_env::Eval;
+            let s = t.s()?;
+            Some(match s.eval() {
+                Ok(v) => format!("ok {}", hex(&v)),
+                Err(_) => "err expr".to_string(),
+            })
+        }
+        "evalexpr" => {
+            let s = t.s()?;
+            Some(match evalexpr::eval(&s) {
+                Ok(v) => format!("ok {}", hex(&v.to_string())),
+                Err(_) => "err expr".to_string(),
+            })
+        }
+        "mergekey" => {
+            // mergekey <n> <envkey|->...   : merges n layers of one variable, in order
+            let n = t.n()?;
+            let key = "k".to_string();
+            let mut acc = Env::new();
+            for _ in 0..n {
+                let mut layer = Env::new();
+                if let Some(v) = t.envkey()? {
+                    layer.insert(key.clone(), v);
+                }
+                acc.merge(&layer);
+            }
+            Some(match acc.get(&key) {
+                Some(v) => format!("ok {}", show_envkey(v)),
+                None => "ok -".to_string(),
+            })
+        }
+        "merge" => {
+            // merge <n> <env>... : merges n envs in order, dumps all keys
+            let n = t.n()?;
+            let mut acc = Env::new();
+            let mut keys = Vec::new();
+            for _ in 0..n {
+                let cnt = t.n()?;
+                let mut layer = Env::new();
+                for _ in 0..cnt {
+                    let k = t.s()?;
+                    if let Some(v) = t.envkey()? {
+                        keys.push(k.clone());
+                        layer.insert(k, v);
+                    }
+                }
+                acc.merge(&layer);
+            }
+            Some(format!("ok{}", show_env(&acc, &keys)))
+        }
+        "flatten" => {
+            // flatten <nopts> {key from joiner prefix suffix start end} <nvars> {key envkey}
+            let nopts = t.n()?;
+            let mut opts: im::HashMap<String, MergeOption> = im::HashMap::new();
+            for _ in 0..nopts {
+                let key = t.s()?;
+                let mut obj = serde_json::Map::new();
+                for field in ["from", "joiner", "prefix", "suffix", "start", "end"] {
+                    if let Some(v) = t.opt()? {
+                        obj.insert(field.to_string(), serde_json::Value::String(v));
+                    }
+                }
+                let mo: MergeOption = serde_json::from_value(serde_json::Value::Object(obj)).ok()?;
+                opts.insert(key, mo);
+            }
+            let use_opts = match t.raw()? {
+                "opts" => true,
+                "noopts" => false,
+                _ => return None,
+            };
+            let nvars = t.n()?;
+            let mut env = Env::new();
+            let mut keys = Vec::new();
+            for _ in 0..nvars {
+                let k = t.s()?;
+                if let Some(v) = t.envkey()? {
+                    keys.push(k.clone());
+                    env.insert(k, v);
+                }
+            }
+            for k in opts.keys() {
+                keys.push(k.clone());
+            }
+            keys.sort();
+            keys.dedup();
+            let res = env.flatten_with_opts_option(if use_opts { Some(&opts) } else { None });
+            Some(match res {
+                Ok(map) => {
+                    let mut r = "ok".to_string();
+                    for k in keys.iter() {
+                        if let Some(v) = map.get(k) {
+                            r.push_str(&format!(" {} {}", hex(k), hex(v)));
+                        }
+                    }
+                    r
+                }
+                Err(e) => {
+                    let msg = format!("{e:#}");
+                    if msg.contains("non-existing key") {
+                        "err from-missing".to_string()
+                    } else if msg.contains("has both values") {
+                        "err from-both".to_string()
+                    } else {
+                        format!("err other {}", hex(&msg))
+                    }
+                }
+            })
+        }
+        "assign" => {
+            // assign <n> <assignment>... : applies assignments in order to an empty env
+            let n = t.n()?;
+            let mut env = Env::new();
+            let mut keys = Vec::new();
+            for _ in 0..n {
+                let a = t.s()?;
+                if let Some((k, _)) = a.split_once("+=").or_else(|| a.split_once('=')) {
+                    keys.push(k.to_string());
+                }
+                if env.assign_from_string(&a).is_err() {
+                    return Some("err parse".to_string());
+                }
+            }
+            Some(format!("ok{}", show_env(&env, &keys)))
+        }
+        "envexpand" => {
+            // envexpand <env> <values-env> : the load-time expansion pass
+            let mut env = t.env()?;
+            let values = t.env()?;
+            let keys: Vec<String> = {
+                // re-parse the key list from the line (Env has no key iterator we can use)
+                let mut t2 = Toks {
+                    it: line.split_whitespace(),
+                };
+                t2.raw()?;
+                let n = t2.n()?;
+                let mut keys = Vec::new();
+                for _ in 0..n {
+                    keys.push(t2.s()?);
+                    t2.envkey()?;
+                }
+                keys
+            };
+            Some(match env.expand(&values) {
+                Ok(()) => format!("ok{}", show_env(&env, &keys)),
+                Err(e) => format!("err other {}", hex(&format!("{e:#}"))),
+            })
+        }
+        "allowed" => {
+            // allowed <nctx> {name parent|-}... <builder> <blocklist> <allowlist>
+            let n = t.n()?;
+            let mut bag = ContextBag::new();
+            for _ in 0..n {
+                let name = t.s()?;
+                let parent = t.opt()?;
+                if bag
+                    .add_context_or_builder(Context::new(name, parent), true)
+                    .is_err()
+                {
+                    return Some("err duplicate".to_string());
+                }
+            }
+            let builder = t.s()?;
+            let blocklist = t.strlist()?;
+            let allowlist = t.strlist()?;
+            if bag.finalize().is_err() {
+                return Some("err finalize".to_string());
+            }
+            let ctx = match bag.get_by_name(&builder) {
+                Some(c) => c,
+                None => return Some("err nobuilder".to_string()),
+            };
+            Some(match bag.is_allowed(ctx, &blocklist, &allowlist) {
+                BlockAllow::Allowed => "ok allowed".to_string(),
+                BlockAllow::Blocked => "ok blocked".to_string(),
+                BlockAllow::AllowedBy(i) => format!("ok allowedby {}", hex(&bag.context_by_id(i).name)),
+                BlockAllow::BlockedBy(i) => format!("ok blockedby {}", hex(&bag.context_by_id(i).name)),
+            })
+        }
+        _ => None,
+    }
+}
+
+pub fn serve() -> i32 {
+    std::panic::set_hook(Box::new(|_| {}));
+    let stdin = std::io::stdin();
+    let stdout = std::io::stdout();
+    let mut out = std::io::BufWriter::new(stdout.lock());
+    for line in stdin.lock().lines() {
+        let line = match line {
+            Ok(l) => l,
+            Err(_) => break,
+        };
+        if line.trim().is_empty() {
+            continue;
+        }
+        let reply = match catch_unwind(AssertUnwindSafe(|| handle(&line))) {
+            Ok(Some(r)) => r,
+            Ok(None) => "badrequest".to_string(),
+            Err(_) => "panic".to_string(),
+        };
+        let _ = writeln!(out, "{reply}");
+    }
+    let _ = out.flush();
+    0
+}
